@@ -4,15 +4,43 @@ import json, os, sys
 ROOT = os.path.dirname(os.path.dirname(os.path.abspath(__file__)))
 
 # id -> (technique, level text, level note, design ref)
+PBT = "property-based testing (Hypothesis generators, 16 PYTHONHASHSEED shards) against an independent reference model"
 CHECKS = {
- "C04": ("property-based testing (Hypothesis) + exhaustive small-scope enumeration against a reference NFA",
-         "Generated finite automata (3 classes, 9 state-name pools, 16 PYTHONHASHSEED values) and every 2-state "
+ "C01": (PBT + "; exact language comparison by product construction; exhaustive small scope",
+         "Generated automata of the three classes (8 state-name pools incl. names that look like merged-state names, 6 symbol pools) "
+         "and every 2-state (thorough: every 3-state single-start) epsilon-NFA over {a,eps}: accepts on all words <=3 (+foreign symbol, "
+         "+epsilon tokens) equals the reference run semantics; to_deterministic / remove_epsilon_transitions / minimize / copy are extracted "
+         "through public observers and compared exactly (product equivalence, shortest distinguishing word) plus shape clauses. "
+         "Exploration: nothing is established beyond the generated cases and the enumerated scopes.",
+         "Trusts vlib/ref_fa.py (textbook NFA semantics) and CPython; <=5 states per automaton in the random tier.",
+         "DESIGN.md section 4, C01"),
+ "C02": (PBT + "; metamorphic pair generation (language-preserving and language-changing edits); exhaustive pairs of 2-state automata",
+         "Ordered pairs of automata (independent, language-preserving edits, minimal language-changing edits, same description in another class): "
+         "is_equivalent_to both ways and == must equal the exact reference equivalence; minimize() must be language-equal, all states reachable, "
+         "pairwise distinguishable, of the reference minimal size and isomorphic to the reference minimal DFA (and to each other for equivalent operands). "
+         "Exploration.",
+         "Trusts vlib/ref_fa.py (equivalence by BFS over subset pairs, Moore refinement for the canonical size).",
+         "DESIGN.md section 4, C02"),
+ "C03": (PBT + "; exact language comparison of every operation result with the reference construction",
+         "Pairs of (mostly nondeterministic, epsilon) automata sharing state names, alphabets equal/overlapping/disjoint: intersection, complement "
+         "(own alphabet), difference, reversal, union, concatenation, star and the operator forms are extracted and compared exactly with the reference "
+         "constructions. Exploration.",
+         "Trusts vlib/ref_fa.py; union/concatenate/kleene_star only on plain-token symbols (they go through to_regex).",
+         "DESIGN.md section 4, C03"),
+ "C04": (PBT + "; exhaustive small-scope enumeration",
+         "Generated finite automata (3 classes, 8 state-name pools, 16 PYTHONHASHSEED values) and every 2-state "
          "(thorough: every 3-state single-start) epsilon-NFA over {a,eps}: is_empty, is_deterministic, is_acyclic and "
          "get_accepted_words(n) must equal the answers of an independent reference NFA (reachability, 3-clause "
-         "definition, DFS cycle search, exact bounded language). Exploration: absence is not established beyond the "
+         "definition, DFS cycle search, exact bounded language, no duplicates). Exploration: absence is not established beyond the "
          "enumerated scopes.",
          "Trusts vlib/ref_fa.py (textbook semantics, ~300 lines) and CPython; sizes bounded (<=5 states).",
          "DESIGN.md section 4, C04"),
+ "C06": (PBT + "; round trip to_regex -> to_epsilon_nfa compared exactly with the reference automaton",
+         "Epsilon-NFAs over plain-token symbols with 0-3 start states, 0-3 finals, loops, epsilon edges under 16 hash seeds (elimination order): "
+         "the epsilon-NFA of to_regex() is extracted and compared exactly with the reference automaton; Regex.accepts agrees on all words <=3; "
+         "any exception is a failure. Exploration.",
+         "Reads the language of the returned Regex through Regex.to_epsilon_nfa/accepts, which C05 judges separately.",
+         "DESIGN.md section 4, C06"),
 }
 NOT_APPLICABLE = {}
 
